@@ -42,13 +42,14 @@ type exprGen struct {
 	vals  []string // text and attribute values present
 	feat  map[string]bool
 
+	locals   []string // local names of the PREFIXED elements present (used as bare names)
 	rootName string
 	first    bool // the next step is the first step of an absolute path
 }
 
 func newExprGen(r *vh.Rng, d *docCtx) *exprGen {
 	g := &exprGen{r: r, feat: map[string]bool{}}
-	se, sa, sv := map[string]bool{}, map[string]bool{}, map[string]bool{}
+	se, sa, sv, sl := map[string]bool{}, map[string]bool{}, map[string]bool{}, map[string]bool{}
 	add := func(m map[string]bool, l *[]string, s string) {
 		if !m[s] {
 			m[s] = true
@@ -59,6 +60,9 @@ func newExprGen(r *vh.Rng, d *docCtx) *exprGen {
 		switch n.Type {
 		case xmlquery.ElementNode:
 			add(se, &g.elems, qname(n.Prefix, n.Data))
+			if n.Prefix != "" {
+				add(sl, &g.locals, n.Data)
+			}
 			for _, a := range n.Attr {
 				add(sa, &g.attrs, qname(a.Name.Space, a.Name.Local))
 				add(sv, &g.vals, a.Value)
@@ -107,6 +111,12 @@ func (g *exprGen) elemTest() string {
 	case c < 5:
 		if g.r.Chance(0.07) {
 			return g.r.PickStr("nosuch", "a:nosuch", "b:x")
+		}
+		if len(g.locals) > 0 && g.r.Chance(0.15) {
+			// the bare local name of an element that carries a prefix: must NOT select it (the
+			// engine's name test compares the prefix too), only its un-prefixed namesakes
+			g.feat["bare-name-of-prefixed-element"] = true
+			return g.locals[g.r.Pick(len(g.locals))]
 		}
 		return g.elems[g.r.Pick(len(g.elems))]
 	case c < 7:
